@@ -395,6 +395,11 @@ func laneE2E(c *ev.Ctx) {
 	// that carries a slice, nor a 206 with other bytes than the range names. Written "Header-Name|kind".
 	condKinds := []string{"If-Match|current-etag", "If-Match|stale-etag", "If-None-Match|current-etag", "If-None-Match|stale-etag",
 		"If-Modified-Since|date-past", "If-Modified-Since|date-future", "If-Unmodified-Since|date-past", "If-Unmodified-Since|date-future"}
+	// query arguments that address the object in another way or decorate the answer, next to a Range: the request may
+	// be refused (4xx: S3 itself refuses Range together with partNumber), or served as the range / as the whole
+	// object - status, Content-Range, Content-Length and body must still describe one and the same thing
+	queryKinds := []string{"partNumber=1", "partNumber=2", "partNumber=0", "response-content-type=text%2Fplain", "response-cache-control=no-cache", "x-id=GetObject", "versionId=null"}
+	compQuery := ""
 	comp := ""
 	one := func(id string, size int64, h string, head bool) {
 		obj := objs[size]
@@ -409,7 +414,19 @@ func laneE2E(c *ev.Ctx) {
 		if comp != "" {
 			hdr = append(hdr, compHdr, ifRange(compKind, obj))
 		}
-		if head {
+		if compQuery != "" {
+			rq := &s3c.Req{Method: "GET", Path: s3c.ObjPath("rng", key), Query: compQuery}
+			if head {
+				rq.Method = "HEAD"
+			}
+			for i := 0; i+1 < len(hdr); i += 2 {
+				rq.Header = append(rq.Header, [2]string{hdr[i], hdr[i+1]})
+			}
+			if head {
+				method = "HEAD"
+			}
+			resp = cl.Do(rq)
+		} else if head {
 			method = "HEAD"
 			resp = cl.HeadObject("rng", key, hdr...)
 		} else {
@@ -441,6 +458,15 @@ func laneE2E(c *ev.Ctx) {
 			// the property speaks about GET; a HEAD that ignores Range is the "unsupported form" outcome
 			e.strict = append(e.strict, outcome{kind: "ignore"})
 		}
+		if compQuery != "" {
+			e.strict = append(e.strict, outcome{kind: "ignore"})
+			qn, _, _ := strings.Cut(compQuery, "=")
+			e.class += "+query:" + qn
+			if resp.Status >= 400 && resp.Status < 500 && resp.Status != 416 {
+				c.Distinct("e2e|" + method + "|" + sizeClass(size) + "|" + e.class + "|refused")
+				return
+			}
+		}
 		if comp != "" {
 			e.strict = append(e.strict, outcome{kind: "ignore"})
 			e.class += "+" + strings.ToLower(compHdr) + ":" + compKind
@@ -453,6 +479,9 @@ func laneE2E(c *ev.Ctx) {
 		cr := resp.Header.Get("Content-Range")
 		cl := resp.Header.Get("Content-Length")
 		obs := map[string]any{"method": method, "size": size, "range": h, "status": resp.Status, "content_range": cr, "content_length": cl, "body_len": len(resp.Body), "class": e.class}
+		if compQuery != "" {
+			obs["query"] = compQuery
+		}
 		if comp != "" {
 			obs["conditional_header"] = compHdr + ": " + ifRange(compKind, obj)
 		}
@@ -528,6 +557,16 @@ func laneE2E(c *ev.Ctx) {
 			}
 		}
 	}
+	for i, q := range queryKinds {
+		for j, h := range []string{"bytes=10-19", "bytes=50-", "bytes=-7", "bytes=0-99"} {
+			id := fmt.Sprintf("e2e/query/%d/%d", i, j)
+			if c.Want(id) {
+				compQuery = q
+				one(id, 100, h, j == 3)
+				compQuery = ""
+			}
+		}
+	}
 	for i, k := range condKinds {
 		for j, h := range []string{"bytes=10-29", "bytes=-7"} {
 			id := fmt.Sprintf("e2e/cond/%d/%d", i, j)
@@ -552,12 +591,16 @@ func laneE2E(c *ev.Ctx) {
 		case 2:
 			ck = condKinds[r.Intn(len(condKinds))]
 		}
+		cq := ""
+		if r.Intn(10) == 0 {
+			cq = queryKinds[r.Intn(len(queryKinds))]
+		}
 		if !c.Want(id) {
 			continue
 		}
-		comp = ck
+		comp, compQuery = ck, cq
 		one(id, size, h, i%7 == 6)
-		comp = ""
+		comp, compQuery = "", ""
 		if i < 2 {
 			c.Sample(map[string]any{"lane": "e2e", "size": size, "range": h})
 		}
